@@ -47,6 +47,8 @@ def run(prop, tier, seed, plan, assumptions, rule, mc=None, nontrivial_key="stat
     c.cov.setdefault("states", 1); c.cov.setdefault("transitions", 1)
     c.cov.setdefault("traces_validated_against_impl", 0)
     c.cov["distinct_nontrivial"] = c.cov.get(nontrivial_key, 0)
+    # cases this run executed: crash images opened (fault enumeration) or statements / inputs executed on the real engine
+    c.cov["evaluations"] = c.cov.get("images", 0) + c.cov.get("statements", 0) if level == "fault_enumeration" else c.cov.get("statements", 0) + c.cov.get("client_calls", 0)
     shutil.rmtree(wd, ignore_errors=True)
     return c.finish()
 
